@@ -23,8 +23,15 @@ type State map[string][]byte
 
 // Key is a canonical hash of a state.
 func (s State) Key() string {
+	// files in the temporary directory have randomly generated names: no later invocation can address them by
+	// name, so they enter the key by content only
 	var names []string
 	for n := range s {
+		if strings.HasPrefix(n, "tmp:") {
+			sum := sha256.Sum256(s[n])
+			names = append(names, "tmp:*"+hex.EncodeToString(sum[:8]))
+			continue
+		}
 		names = append(names, n)
 	}
 	sort.Strings(names)
@@ -32,8 +39,10 @@ func (s State) Key() string {
 	for _, n := range names {
 		h.Write([]byte(n))
 		h.Write([]byte{0})
-		sum := sha256.Sum256(s[n])
-		h.Write(sum[:])
+		if b, ok := s[n]; ok {
+			sum := sha256.Sum256(b)
+			h.Write(sum[:])
+		}
 	}
 	return hex.EncodeToString(h.Sum(nil))[:16]
 }
@@ -53,6 +62,53 @@ func (r Result) Same(o Result) bool {
 }
 
 func Bin() string { return os.Getenv("VERIF_GTS_BIN") }
+
+// The state is everything an invocation leaves behind for the next one: the entries of the cache directory (keyed
+// by their file name) and any other file under the cache root, the home directory or the temporary directory
+// (keyed "xdg:<path>", "home:<path>", "tmp:<path>").
+func statePath(scratch, key string) string {
+	switch {
+	case strings.HasPrefix(key, "xdg:"):
+		return filepath.Join(scratch, "xdg", key[4:])
+	case strings.HasPrefix(key, "home:"):
+		return filepath.Join(scratch, "home", key[5:])
+	case strings.HasPrefix(key, "tmp:"):
+		return filepath.Join(scratch, "tmp", key[4:])
+	}
+	return filepath.Join(scratch, "xdg", "gts-cache", key)
+}
+
+func writeState(scratch string, state State) {
+	for n, b := range state {
+		p := statePath(scratch, n)
+		os.MkdirAll(filepath.Dir(p), 0o755)
+		os.WriteFile(p, b, 0o644)
+	}
+}
+
+func readState(scratch string) State {
+	ns := State{}
+	for _, root := range []string{"xdg", "home", "tmp"} {
+		base := filepath.Join(scratch, root)
+		filepath.Walk(base, func(p string, info os.FileInfo, err error) error {
+			if err != nil || info.IsDir() {
+				return nil
+			}
+			rel, _ := filepath.Rel(base, p)
+			b, err := os.ReadFile(p)
+			if err != nil {
+				return nil
+			}
+			if root == "xdg" && filepath.Dir(rel) == "gts-cache" {
+				ns[filepath.Base(rel)] = b
+			} else {
+				ns[root+":"+rel] = b
+			}
+			return nil
+		})
+	}
+	return ns
+}
 
 // Run executes `gts args...` with stdin taken from the file stdinPath (empty:
 // /dev/null).  The literal argument OUT is replaced by a path inside the
@@ -81,9 +137,7 @@ func RunOpts(args []string, stdin []byte, state State, files map[string][]byte, 
 	os.MkdirAll(cacheDir, 0o755)
 	os.MkdirAll(filepath.Join(scratch, "tmp"), 0o755)
 	os.MkdirAll(filepath.Join(scratch, "home"), 0o755)
-	for n, b := range state {
-		os.WriteFile(filepath.Join(cacheDir, n), b, 0o644)
-	}
+	writeState(scratch, state)
 	outPath := filepath.Join(scratch, "out.file")
 	hasOut := false
 	real := make([]string, len(args))
@@ -152,15 +206,7 @@ func RunOpts(args []string, stdin []byte, state State, files map[string][]byte, 
 			res.OutFile, res.HasOut = b, true
 		}
 	}
-	ns := State{}
-	if ents, err := os.ReadDir(cacheDir); err == nil {
-		for _, e := range ents {
-			if b, err := os.ReadFile(filepath.Join(cacheDir, e.Name())); err == nil {
-				ns[e.Name()] = b
-			}
-		}
-	}
-	return res, ns
+	return res, readState(scratch)
 }
 
 // RunKilled starts `gts args...` with its standard output connected to a pipe
@@ -182,9 +228,7 @@ func RunKilled(args []string, stdin []byte, state State, files map[string][]byte
 	os.MkdirAll(cacheDir, 0o755)
 	os.MkdirAll(filepath.Join(scratch, "tmp"), 0o755)
 	os.MkdirAll(filepath.Join(scratch, "home"), 0o755)
-	for n, b := range state {
-		os.WriteFile(filepath.Join(cacheDir, n), b, 0o644)
-	}
+	writeState(scratch, state)
 	for n, b := range files {
 		os.WriteFile(filepath.Join(scratch, n), b, 0o644)
 	}
@@ -252,13 +296,5 @@ func RunKilled(args []string, stdin []byte, state State, files map[string][]byte
 		cmd.Process.Kill()
 		<-done
 	}
-	ns = State{}
-	if ents, err := os.ReadDir(cacheDir); err == nil {
-		for _, e := range ents {
-			if b, err := os.ReadFile(filepath.Join(cacheDir, e.Name())); err == nil {
-				ns[e.Name()] = b
-			}
-		}
-	}
-	return ns, blocked
+	return readState(scratch), blocked
 }
